@@ -113,9 +113,24 @@ def _trace_sig(t, bad, l):
 GEN_FAMILIES = [
     # (name, overrides, L quick, L thorough): every sequence over the family's alphabet up to L
     ("full", {"Timeouts": "{0, 1, 999}", "MaxAdvance": 2, "MaxNotify": 2}, 5, 6),
-    ("untimed", {"Timeouts": "{999}", "MaxAdvance": 1, "MaxNotify": 3}, 6, 8),
-    ("timed", {"Timeouts": "{1, 2}", "MaxAdvance": 2, "MaxNotify": 1}, 6, 7),
+    ("untimed", {"Timeouts": "{999}", "MaxAdvance": 1, "MaxNotify": 3}, 5, 7),
+    ("timed", {"Timeouts": "{1, 2}", "MaxAdvance": 2, "MaxNotify": 1}, 5, 6),
 ]
+
+
+def c2s(ctx, n):
+    jobs = []
+    for i in range(n):
+        kind = "cond" if i % 2 == 0 else "event"
+        profile = "timeouts" if i % 8 < 2 else "mixed"
+        length = ctx.pick(330, 400) if profile == "timeouts" else ctx.pick(120, 220)
+        nw = 260 if profile == "timeouts" else 90
+        jobs.append((i + 1, ctx.seed * 1000003 + i, nw, length, kind, profile))
+    for nw in (90, 260):
+        part = framework.pool_map(random_trace, [j for j in jobs if j[2] == nw])
+        if part:
+            ctx.validate("sync", "Trace_CondEvent", "Trace_CondEvent.cfg", part, overrides={"NW": nw},
+                         sig_fn=_trace_sig, label="c2s-nw%d" % nw)
 
 
 def run(ctx):
@@ -140,19 +155,7 @@ def run(ctx):
                          overrides={"L": 40, "NW": NW_SIM, "Timeouts": "{0, 1, 2, 3, 999}", "MaxAdvance": 3, "MaxNotify": 4})
     ctx.replay(sims, replayer_sim, label="s2c-sim")
     # 3. code -> spec: random recorded runs validated by TLC
-    n = ctx.pick(240, 4000)
-    jobs = []
-    for i in range(n):
-        kind = "cond" if i % 2 == 0 else "event"
-        profile = "timeouts" if i % 4 < 2 and i % 8 < 4 else "mixed"
-        length = ctx.pick(330, 400) if profile == "timeouts" else ctx.pick(120, 220)
-        nw = 260 if profile == "timeouts" else 90
-        jobs.append((i + 1, ctx.seed * 1000003 + i, nw, length, kind, profile))
-    for nw in (90, 260):
-        part = framework.pool_map(random_trace, [j for j in jobs if j[2] == nw])
-        if part:
-            ctx.validate("sync", "Trace_CondEvent", "Trace_CondEvent.cfg", part, overrides={"NW": nw},
-                         sig_fn=_trace_sig, label="c2s-nw%d" % nw)
+    c2s(ctx, ctx.pick(240, 4000))
     ctx.cov["rule"] = ("paths: " + "; ".join(rule) + "; per object kind (Condition, Event); plus seeded TLC simulation "
                        "walks (depth 40, 12 waiters) and random recorded runs; distinct = distinct (config, operation "
                        "sequence); non-trivial = length >= 2 with a non-advance op")
